@@ -28,7 +28,17 @@ type isoResult struct {
 }
 
 type isoCtx struct {
-	res *isoResult
+	res   *isoResult
+	trace string // when set, Step records the step about to run in this file
+}
+
+// Step marks the start of sub-step k of the job.  It is a no-op unless the job
+// is being re-run to locate a crash, in which case the step is recorded so the
+// parent can name the exact input.
+func (c *isoCtx) Step(k int, describe func() string) {
+	if c.trace != "" {
+		os.WriteFile(c.trace, []byte(describe()), 0o644)
+	}
 }
 
 func (c *isoCtx) Eval(key string) { c.res.Evals = append(c.res.Evals, key) }
@@ -51,6 +61,9 @@ type isoFamily struct {
 	Run   func(i int, c *isoCtx)
 	// CrashSig, if set, computes the signature of a process crash in job i.
 	CrashSig func(i int, site string) string
+	// Traceable: the job calls c.Step before each sub-step, so a crash can be
+	// pinned to one input by re-running the job alone in trace mode.
+	Traceable bool
 }
 
 var isoFamilies = map[string]*isoFamily{}
@@ -155,6 +168,20 @@ func runIsolated(t *testing.T, run *rep.Run, family string) (jobs, crashes int) 
 					t.Errorf("isolated child of %s failed outside a job", family)
 					return
 				}
+				// re-run the culprit alone in trace mode to learn the exact step
+				stepDesc := ""
+				if f.Traceable {
+					tf := fmt.Sprintf("%s/%d.trace", tmp, at)
+					tc := exec.Command(os.Args[0], "-test.run", "^TestIsolatedChild$", "-test.timeout", "0")
+					tc.Env = append(os.Environ(), "VERIF_ISO="+family, "VERIF_ISO_FROM="+strconv.Itoa(at), "VERIF_ISO_TO="+strconv.Itoa(at+1),
+						"VERIF_ISO_OUT="+tf+".out", "VERIF_ISO_PROGRESS="+tf+".progress", "VERIF_ISO_TRACE="+tf, "GOMAXPROCS=2", "GOTRACEBACK=all")
+					if out2, err2 := tc.CombinedOutput(); err2 != nil {
+						stderr = out2
+					}
+					if b, err := os.ReadFile(tf); err == nil {
+						stepDesc = string(b)
+					}
+				}
 				mu.Lock()
 				crashes++
 				jobs++
@@ -164,7 +191,7 @@ func runIsolated(t *testing.T, run *rep.Run, family string) (jobs, crashes int) 
 					sig = f.CrashSig(at, crashSite(string(stderr)))
 				}
 				run.Violation(sig,
-					map[string]any{"case": f.Name(at), "job_index": at, "crash_output_tail": tail(string(stderr), 4000)})
+					map[string]any{"case": f.Name(at), "job_index": at, "crashing_step": stepDesc, "crash_output_tail": tail(string(stderr), 4000)})
 				mu.Unlock()
 				start = at + 1
 			}
@@ -194,7 +221,7 @@ func TestIsolatedChild(t *testing.T) {
 	for i := from; i < to; i++ {
 		os.WriteFile(os.Getenv("VERIF_ISO_PROGRESS"), []byte(strconv.Itoa(i)), 0o644)
 		res := &isoResult{I: i}
-		f.Run(i, &isoCtx{res})
+		f.Run(i, &isoCtx{res: res, trace: os.Getenv("VERIF_ISO_TRACE")})
 		b, _ := json.Marshal(res)
 		out.Write(append(b, '\n'))
 	}
